@@ -48,7 +48,9 @@ def main(argv=None):
                 return 1
             print("REPLAY did not reproduce")
             return 0
-        mod.main(run)
+        from .core import deep_call
+
+        deep_call(mod.main, run)
     except ToolError as e:
         run.tool_error(str(e))
     except Exception as e:  # noqa
